@@ -371,6 +371,218 @@ theorem T3_complete_iff_zero (st : List Status) : stillMissing st = 0 ↔ ∀ x 
   rw [List.length_eq_zero_iff, List.filter_eq_nil_iff]
   simp
 
+/-! ## T4: extraction starts exactly when the download is complete -/
+
+/-- Only a stored piece changes the number of pieces not owned: every other event leaves it as it is. -/
+theorem sm_eq_of_step (s s' : MState) (ev : Ev) (r : Reply) (hstep : mstep s ev = .ok s' r)
+    (hnd : ∀ a c, ev ≠ .pieceDone a c) :
+    stillMissing s'.statuses = stillMissing s.statuses := by
+  have hk : ∀ (st : List Status) (k : Nat), stillMissing (modifyAt st k decr) = stillMissing st :=
+    fun st k => sm_modifyAt_keeps st k decr decr_keepsHave
+  have hi : ∀ (st : List Status) (k : Nat), stillMissing (modifyAt st k incr) = stillMissing st :=
+    fun st k => sm_modifyAt_keeps st k incr incr_keepsHave
+  cases ev with
+  | add a n => simp only [mstep, Out.ok.injEq] at hstep; rw [← hstep.1]
+  | choke a =>
+    simp only [mstep] at hstep
+    cases hp : findPeer s a with
+    | none => simp [hp] at hstep
+    | some p =>
+      simp only [hp, Out.ok.injEq] at hstep; rw [← hstep.1]
+      cases p.pieceIndex with
+      | none => rfl
+      | some k => simp only []; rw [hk]
+  | unchoke a chosen =>
+    simp only [mstep] at hstep
+    cases hp : findPeer s a with
+    | none => simp [hp] at hstep
+    | some p =>
+      have h0 : stillMissing (match p.choked, p.pieceIndex with
+          | false, some old => modifyAt s.statuses old decr
+          | _, _ => s.statuses) = stillMissing s.statuses := by
+        cases p.choked <;> cases p.pieceIndex <;> first | rfl | exact hk _ _
+      cases chosen with
+      | none => simp only [hp, Out.ok.injEq] at hstep; rw [← hstep.1]; exact h0
+      | some c => simp only [hp, Out.ok.injEq] at hstep; rw [← hstep.1]; simp only []; rw [hi]; exact h0
+  | interested a =>
+    simp only [mstep] at hstep
+    cases hp : findPeer s a with
+    | none => simp [hp] at hstep
+    | some p => simp only [hp, Out.ok.injEq] at hstep; rw [← hstep.1]
+  | notInterested a chosen =>
+    simp only [mstep] at hstep
+    cases hp : findPeer s a with
+    | none => simp [hp] at hstep
+    | some p => simp only [hp, Out.ok.injEq] at hstep; rw [← hstep.1]
+  | bitfield a bits chosen =>
+    simp only [mstep] at hstep
+    cases hp : findPeer s a with
+    | none => simp [hp] at hstep
+    | some p =>
+      simp only [hp] at hstep
+      split at hstep
+      · cases hstep
+      · simp only [Out.ok.injEq] at hstep; rw [← hstep.1]
+  | «have» a i =>
+    simp only [mstep] at hstep
+    cases hp : findPeer s a with
+    | none => simp [hp] at hstep
+    | some p =>
+      simp only [hp] at hstep
+      split at hstep
+      · cases hstep
+      · split at hstep
+        · rename_i hcond
+          split at hstep
+          · simp only [Out.ok.injEq] at hstep; rw [← hstep.1]
+            simp only []
+            -- Missing → Reserved(1): not `Have` before, not `Have` after
+            have hmiss : s.statuses.getD i .have = .missing := hcond.1
+            cases hx : s.statuses[i]? with
+            | none => unfold modifyAt; rw [hx]
+            | some x =>
+              have hxm : x = .missing := by rw [getD_eq, hx] at hmiss; exact hmiss
+              rw [modifyAt_split s.statuses i x _ hx]
+              conv => rhs; rw [(split_at s.statuses i x hx).1]
+              simp only [sm_append, sm_cons, hxm]
+              simp
+          · simp only [Out.ok.injEq] at hstep; rw [← hstep.1]
+        · simp only [Out.ok.injEq] at hstep; rw [← hstep.1]
+  | pieceDone a chosen => exact absurd rfl (hnd a chosen)
+  | pieceCancel a chosen =>
+    simp only [mstep] at hstep
+    cases hp : findPeer s a with
+    | none => simp [hp] at hstep
+    | some p =>
+      simp only [hp] at hstep
+      cases hpi : p.pieceIndex with
+      | none => simp [hpi] at hstep
+      | some y =>
+        simp only [hpi, Out.ok.injEq] at hstep; rw [← hstep.1]
+        simp only [sm_handlePiece]; rw [hk]
+  | kill a =>
+    simp only [mstep] at hstep
+    cases hp : findPeer s a with
+    | none => simp only [hp, Out.ok.injEq] at hstep; rw [← hstep.1]
+    | some p =>
+      simp only [hp, Out.ok.injEq] at hstep; rw [← hstep.1]
+      cases hpi : p.pieceIndex with
+      | none => rfl
+      | some k =>
+        simp only []
+        split
+        · -- a not-owned piece is set to Missing: still not owned
+          rename_i hne
+          cases hx : s.statuses[k]? with
+          | none => unfold modifyAt; rw [hx]
+          | some x =>
+            have hxne : x ≠ .have := by
+              intro e; apply hne; rw [getD_eq, hx, e]; rfl
+            rw [modifyAt_split s.statuses k x _ hx]
+            conv => rhs; rw [(split_at s.statuses k x hx).1]
+            simp only [sm_append, sm_cons, hxne]
+            simp
+        · rfl
+
+
+/-- States of the manager with its `files_extracted` flag, reachable (for a torrent with at least one piece) by
+    events the connection tasks can emit. -/
+inductive XReach (onKillOnly : Bool) : XState → Prop where
+  | init (n : Nat) (hn : 0 < n) : XReach onKillOnly { m := { statuses := List.replicate n .missing, peers := [] } }
+  | step (x x' : XState) (ev : Ev) (r : Reply) : XReach onKillOnly x → xstep onKillOnly x ev = some (x', r) → XReach onKillOnly x'
+
+theorem sm_replicate_missing (n : Nat) : stillMissing (List.replicate n Status.missing) = n := by
+  induction n with
+  | zero => rfl
+  | succ k ih => rw [List.replicate_succ, sm_cons, ih]; simp; omega
+
+/-- **T4 (C02).** In every reachable manager state: extraction has been started if and only if every piece is
+    owned — it never starts early, and it does not wait for a peer to disconnect. -/
+theorem T4_extraction_started_iff_complete (x : XState) (h : XReach false x) :
+    x.extracted = true ↔ stillMissing x.m.statuses = 0 := by
+  induction h with
+  | init n hn =>
+    simp only [sm_replicate_missing]
+    constructor
+    · intro h; cases h
+    · intro h; omega
+  | step x x' ev r hx hstep ih =>
+    unfold xstep at hstep
+    cases hm : mstep x.m ev with
+    | panic w => rw [hm] at hstep; cases hstep
+    | ok s' r' =>
+      rw [hm] at hstep
+      simp only [Option.some.injEq, Prod.mk.injEq] at hstep
+      obtain ⟨hx', _⟩ := hstep
+      subst hx'
+      simp only
+      have hle := sm_le_of_step x.m s' ev r' hm
+      constructor
+      · intro hext
+        simp only [Bool.or_eq_true, Bool.and_eq_true, decide_eq_true_eq] at hext
+        rcases hext with h1 | ⟨_, h2⟩
+        · have := ih.mp h1; omega
+        · exact h2
+      · intro hz
+        simp only [Bool.or_eq_true, Bool.and_eq_true, decide_eq_true_eq]
+        by_cases h0 : stillMissing x.m.statuses = 0
+        · left; exact ih.mpr h0
+        · right
+          refine ⟨?_, hz⟩
+          cases ev with
+          | pieceDone a c => rfl
+          | kill a => rfl
+          | add a n => exact absurd (sm_eq_of_step x.m s' _ r' hm (fun _ _ h => by cases h)) (by omega)
+          | choke a => exact absurd (sm_eq_of_step x.m s' _ r' hm (fun _ _ h => by cases h)) (by omega)
+          | unchoke a c => exact absurd (sm_eq_of_step x.m s' _ r' hm (fun _ _ h => by cases h)) (by omega)
+          | interested a => exact absurd (sm_eq_of_step x.m s' _ r' hm (fun _ _ h => by cases h)) (by omega)
+          | notInterested a c => exact absurd (sm_eq_of_step x.m s' _ r' hm (fun _ _ h => by cases h)) (by omega)
+          | «have» a i => exact absurd (sm_eq_of_step x.m s' _ r' hm (fun _ _ h => by cases h)) (by omega)
+          | bitfield a b c => exact absurd (sm_eq_of_step x.m s' _ r' hm (fun _ _ h => by cases h)) (by omega)
+          | pieceCancel a c => exact absurd (sm_eq_of_step x.m s' _ r' hm (fun _ _ h => by cases h)) (by omega)
+
+/-- Running a list of events. -/
+def xrun (onKillOnly : Bool) : XState → List Ev → Option XState
+  | x, [] => some x
+  | x, ev :: evs => match xstep onKillOnly x ev with
+    | some (x', _) => xrun onKillOnly x' evs
+    | none => none
+
+theorem xreach_run (b : Bool) (x x' : XState) (evs : List Ev) (h : XReach b x) (hr : xrun b x evs = some x') :
+    XReach b x' := by
+  induction evs generalizing x with
+  | nil => simp only [xrun, Option.some.injEq] at hr; subst hr; exact h
+  | cons ev evs ih =>
+    simp only [xrun] at hr
+    cases hs : xstep b x ev with
+    | none => rw [hs] at hr; cases hr
+    | some p =>
+      obtain ⟨x1, r⟩ := p
+      rw [hs] at hr
+      exact ih x1 (XReach.step x x1 ev r h hs) hr
+
+/-- The history used as witness below: one peer connects, offers the only piece, unchokes, delivers it, and stays. -/
+def stayingPeer : List Ev := [.add 0 1, .bitfield 0 [true] (some 0), .unchoke 0 (some 0), .pieceDone 0 none]
+
+/-- The code as it was (extraction only looked for at a disconnect): everything is owned, extraction has not
+    started, and no further event is due. -/
+theorem old_complete_without_extraction :
+    ∃ x, XReach true x ∧ stillMissing x.m.statuses = 0 ∧ x.extracted = false := by
+  cases hx : xrun true { m := { statuses := List.replicate 1 .missing, peers := [] } } stayingPeer with
+  | none => exact absurd hx (by decide)
+  | some x =>
+    refine ⟨x, xreach_run true _ x stayingPeer (XReach.init 1 (by decide)) hx, ?_, ?_⟩
+    · have : (xrun true { m := { statuses := List.replicate 1 .missing, peers := [] } } stayingPeer).map
+          (fun x => stillMissing x.m.statuses) = some 0 := by decide
+      rw [hx] at this; simpa using this
+    · have : (xrun true { m := { statuses := List.replicate 1 .missing, peers := [] } } stayingPeer).map
+          (fun x => x.extracted) = some false := by decide
+      rw [hx] at this; simpa using this
+
+/-- Non-vacuity of T4: with the same history the repaired rule has started extraction. -/
+example : (xrun false { m := { statuses := List.replicate 1 .missing, peers := [] } } stayingPeer).map
+    (fun x => (x.extracted, stillMissing x.m.statuses)) = some (true, 0) := by decide
+
 /-! ### Non-vacuity (tests) -/
 
 example : Reach { statuses := List.replicate 3 .missing, peers := [] } := Reach.init 3
